@@ -1,6 +1,8 @@
 package scanner
 
 import (
+	"fmt"
+
 	"github.com/jsightapi/jsight-schema-core/bytes"
 	"github.com/jsightapi/jsight-schema-core/fs"
 	"github.com/jsightapi/jsight-schema-core/kit"
@@ -101,7 +103,15 @@ func stateEnumBodyEnded(s *Scanner, c byte) *jerr.JApiError {
 	}
 }
 
-func (s *Scanner) readEnumWithJsc() (uint, *jerr.JApiError) {
+func (s *Scanner) readEnumWithJsc() (l uint, je *jerr.JApiError) {
+	defer func() {
+		// The enum scanner of the jsight-schema-core can panic on some malformed
+		// enums (i.e. `["a"]/*`), we have to report an ordinary error in that case.
+		if r := recover(); r != nil {
+			l, je = 0, s.japiError(fmt.Sprintf("invalid enum: %v", r), s.curIndex)
+		}
+	}()
+
 	fc := s.file.Content()
 	file := fs.NewFile("", fc.Sub(s.curIndex, fc.LenIndex()))
 
